@@ -3,6 +3,12 @@
 scratch worktree <dir>/Cxx and the first sentences of the ideas already filed for that property)."""
 import json, glob, os, sys
 root = sys.argv[1]
+wave = sys.argv[2] if len(sys.argv) > 2 else "g"
+ROUNDS = {}
+ROUNDS["g"] = 'THIS ROUND: make it a STRUCTURAL or API-LEVEL change rather than a changed expression inside one function body. Examples of the kind wanted: a method moved to / overridden in / removed from a class of the hierarchy so that another implementation is picked for one subclass; the order of base classes, of registrations, of entries in a table, of decorators; a `@property` / `@classmethod` / `@staticmethod` / cache decorator added, dropped or swapped; a class attribute turned into an instance attribute or vice versa (shared mutable state); a new optional parameter or keyword pass-through that is forwarded on one path but not on another; a changed exception type or a broadened `except` that swallows a case; a `__eq__` / `__hash__` / `__lt__` / `__copy__` / `__reduce__` / `__array_finalize__` / `__getattr__` hook added or changed; a module-level table, alias or registration edited; an import of the same name from another module; a generator turned into a list (or back) where laziness matters; a context / try-finally restructured. The location is free (anchored files or anything they use). Do NOT simply change an arithmetic expression, a comparison operator or a constant inside a function, and do not add a plain memo cache — those have been done many times. Keep it small; do not add comments that give it away.'
+ROUNDS["h"] = """THIS ROUND: make it TWO COOPERATING EDITS at two different sites (two functions, preferably in two different files), each of which looks fine - even like an improvement - when reviewed alone, and each of which ALONE leaves the property intact (check that: with only edit A, or only edit B, your demo must pass); only together do they break the property. Examples of the kind wanted: a producer starts returning a value in another unit / convention / order / type and ONE of several consumers is updated but another is not; a default is changed in a callee and a caller that relied on the old default is left; a validation is moved from one layer to another and one entry path now skips it; a normalisation (copy, change of scale, form conversion, modulo, sort) is removed at one site "because the other site already does it" while that other site is simultaneously relaxed; a helper gains a keyword whose default differs from what one caller needs. The location is free (anchored files or anything they use). Keep both edits small; do not add comments that give it away."""
+ROUNDS["i"] = """THIS ROUND: exploit a PYTHON / NUMPY SEMANTIC SUBTLETY, so that the edited code reads as equivalent to the original to somebody comparing the two versions expression by expression, yet behaves differently for some inputs. Examples of the kind wanted: a name that now resolves to something else (a local, module-level name or import that shadows a builtin / numpy function / another helper of the same name; `from math import ...` instead of `from numpy import ...` where arrays or out-of-domain values occur; an import of the same name from a different module); in-place versus rebinding (`a += b` vs `a = a + b` on arrays or lists that are shared; a slice view modified where a copy was; `sorted(x)` vs `x.sort()`); integer versus float arithmetic or dtype (an integer array receiving floats, `//` vs `/`, `int()` vs `round()`, float vs Decimal / Fraction / timedelta arithmetic, microsecond truncation); mutable default arguments or class attributes shared between instances; late-binding closures / lambdas in loops; generator exhausted on second use; `is` vs `==`; truthiness of 0 / 0.0 / empty arrays / None (`x or default`); dict / set ordering and key identity; `and`/`or` returning operands; chained comparisons; operator precedence (`-x ** 2`, `a % b * c`, unary minus and `%`); exception class hierarchy (`except` order, a subclass relationship); attribute lookup order (instance vs class vs `__getattr__`, property vs attribute, MRO of multiple inheritance); `copy` vs `deepcopy`; `np.array` vs `np.asarray`; `arctan2` argument order hidden behind a helper; string formatting that rounds differently. The location is free (anchored files or anything they use). Keep it small; do not add comments that give it away."""
+ROUNDS["j"] = """THIS ROUND: put the defect into a RARELY EXERCISED PATH of the mechanism: an option, keyword, branch, subclass, error path, fallback or input class that ordinary use and the test-suite never reach (check with a quick grep of tests/ that nothing there exercises it), but that the property statement nevertheless covers (it says "every", "any", "whichever", "forwards and backwards", "for all"). Look for: `else` / `elif` arms and `except` handlers; keyword arguments with non-default values; hyperbolic / retrograde / equatorial / circular / polar / backward-in-time / negative-step / empty / single-element / duplicate / unsorted / boundary-equal inputs; non-default configuration values; secondary subclasses; the XML twin of a KVN path or vice versa; re-use of an object a second time. The defect itself may be of any kind (logic, missing update of a sibling, wrong variable, wrong index, stale state), but it must sit on such a path. Keep it small; do not add comments that give it away."""
 tried = {}
 for d in sorted(glob.glob('/verif/seeded/*')):
     m = json.load(open(d + '/meta.json'))
@@ -11,6 +17,7 @@ for d in sorted(glob.glob('/verif/seeded/*')):
 for l in open('/verif/properties.jsonl'):
     d = json.loads(l); pid = d['id']
     avoid = "\n".join("  - " + t for t in tried.get(pid, [])) or "  (none)"
+    ROUND = ROUNDS[wave]
     txt = f"""You work ONLY inside the git worktree {root}/{pid} (a checkout of the Python flight-dynamics library "beyond"). Do not look at or touch /repo, /verif or any other directory. Python with the library's dependencies is /venv/bin/python; run things with PYTHONPATH={root}/{pid}.
 
 PROPERTY {pid}: {d['title']}
@@ -27,7 +34,7 @@ YOUR TASK: inject ONE realistic defect into the library that BREAKS this propert
   (a) the code still imports/compiles and the existing test-suite result is UNCHANGED (11 tests already fail on the clean tree; exactly the same set must fail and pass afterwards — run `cd {root}/{pid} && PYTHONPATH={root}/{pid} /venv/bin/python -m pytest -q -p no:cacheprovider --no-cov -n 4 2>&1 | tail -20` before and after and compare the FAILED ids);
   (b) the defect needs something specific to manifest (a particular input region, call sequence, option, ordering or state) — ordinary use and the tests look fine;
   (c) it looks like something a competent but hurried maintainer could plausibly commit.
-THIS ROUND: make it a STRUCTURAL or API-LEVEL change rather than a changed expression inside one function body. Examples of the kind wanted: a method moved to / overridden in / removed from a class of the hierarchy so that another implementation is picked for one subclass; the order of base classes, of registrations, of entries in a table, of decorators; a `@property` / `@classmethod` / `@staticmethod` / cache decorator added, dropped or swapped; a class attribute turned into an instance attribute or vice versa (shared mutable state); a new optional parameter or keyword pass-through that is forwarded on one path but not on another; a changed exception type or a broadened `except` that swallows a case; a `__eq__` / `__hash__` / `__lt__` / `__copy__` / `__reduce__` / `__array_finalize__` / `__getattr__` hook added or changed; a module-level table, alias or registration edited; an import of the same name from another module; a generator turned into a list (or back) where laziness matters; a context / try-finally restructured. The location is free (anchored files or anything they use). Do NOT simply change an arithmetic expression, a comparison operator or a constant inside a function, and do not add a plain memo cache — those have been done many times. Keep it small; do not add comments that give it away.
+{ROUND}
 Ideas ALREADY USED by others for this property — do something DIFFERENT in kind and location:
 {avoid}
 
